@@ -32,7 +32,7 @@ ANCHORS = ['manifest:ManifestFile.load', 'openpgp:SystemGPGEnvironment.verify_fi
 REQUIRED = ['manifest:ManifestFile.load', 'seq:accepted-signed', 'seq:rejected',
             'mock_verify_calls', 'gpg:accepted', 'gpg:rejected',
             'gpg:rejected-on-reused-object', 'gpg:resign_cases', 'gpg:filejunk_cases',
-            'longline_cases']
+            'longline_cases', 'gpg:subsigned_cases']
 ASSUMPTIONS = ['(a) uses a mock OpenPGP environment: the framing logic is what is '
                'decided there; (b) is relative to the installed GnuPG',
                'armor-like lines inside the armor-header section, and an END line '
@@ -103,6 +103,7 @@ def units(tier, seed):
         u.append({'k': 'filejunk', 'i': i})
     for i in range(4 if tier == 'quick' else 16):
         u.append({'k': 'longline', 'i': i})
+    u.append({'k': 'subsigned'})
     return u
 
 
@@ -351,6 +352,9 @@ def run_unit(u, ctx):
     elif u['k'] == 'longline':
         from vf.checks import c04gpg
         c04gpg.run_longline(u, ctx)
+    elif u['k'] == 'subsigned':
+        from vf.checks import c04gpg
+        c04gpg.run_subsigned(u, ctx)
     else:
         run_gpg(u, ctx)
 
@@ -365,6 +369,9 @@ def replay(case, ctx):
     elif case.get('kind') == 'filejunk':
         from vf.checks import c04gpg
         c04gpg.run_filejunk({'i': case['i']}, ctx)
+    elif case.get('kind') == 'subsigned':
+        from vf.checks import c04gpg
+        c04gpg.run_subsigned({}, ctx)
     elif case.get('kind') == 'gpgtext':
         from vf.checks import c04gpg
         c04gpg.replay(case, ctx)
